@@ -11,7 +11,9 @@
                     every real bind / reclaim / preempt is admissible in the abstract decision relation
                     with the CLAMPED multiplier, the cycle has the shape allocate* evict*, the
                     observed state is the model state minus the pipelined pods, and the rank
-                    of theorem C15_rank_decreases strictly decreased across the cycle.
+                    of theorem C15_rank_decreases strictly decreased across the cycle; and no
+                    evicted pod is bound again by the next cycle's allocate before the pod it was
+                    evicted for ([order_consistent], theorem C15_shared_order_evicted_pod_not_rebound).
     This is exploration (bounded runs); the theorems of Properties/C15.v cover all runs. *)
 From KaiV Require Export Run.Prelude Model.ClosedSystem.
 Open Scope Z_scope.
@@ -27,7 +29,7 @@ Record ccycle := mkCy {
 }.
 
 Record case := mkCase {
-  k_stream : nat;            (* 0 = class of theorem C15_rank_decreases, 1 = general *)
+  k_stream : nat;            (* 0 = class of theorem C15_rank_decreases, 1 = general, 2 = hierarchical (monitor only) *)
   k_params : params;         (* class: shares scaled to integers; jobs = pods *)
   k_mult : Z * Z;            (* configured saturation multiplier (before the plugin's clamp) *)
   k_exact : bool;            (* all shares were exactly representable and consistent with the session's getters *)
@@ -127,13 +129,56 @@ Fixpoint replay (m : Z * Z) (p : params) (prev : wstate) (pp : list positive) (c
       end
   end.
 
+(** * the ORDER in which the simulation and the next allocate considered jobs *)
+(** What is observable without hooks: the decisions the actions committed, in order (Bind / Evict /
+    TaskPipelined on the cache).  The pop order of utils.JobsOrderByQueues itself - in particular the
+    jobs the simulation popped and SKIPPED, which is what seeded change C15-2 alters - leaves no trace:
+    a skipped or failed job causes no statement operation (the harness additionally follows the
+    statements through framework.EventHandler and sees the victims a scenario evicted and re-placed,
+    label tag SIM-REPLACED, but not the order of the pops).  Observable consequence of theorem
+    C15_shared_order_evicted_pod_not_rebound: a committed eviction (j, v) says that in the
+    simulation's order j was placed and v was not; so in the NEXT cycle's allocate - the same order
+    over the same jobs - v must not be bound unless j was bound before it. *)
+Fixpoint index_of (x : positive) (l : list positive) : option nat :=
+  match l with
+  | [] => None
+  | y :: r => if Pos.eqb x y then Some O else match index_of x r with Some n => Some (S n) | None => None end
+  end.
+Definition rebound_before (evs : list (nat * positive * positive)) (binds : list positive) : bool :=
+  existsb (fun e =>
+    match e with
+    | (a, j, v) =>
+        (Nat.eqb a 1 || Nat.eqb a 2) && negb (Pos.eqb j v)
+        && match index_of v binds with
+           | None => false
+           | Some iv => match index_of j binds with None => true | Some ij => Nat.ltb iv ij end
+           end
+    end) evs.
+Fixpoint order_consistent (prev : list (nat * positive * positive)) (cs : list ccycle) : bool :=
+  match cs with
+  | [] => true
+  | c :: r => negb (rebound_before prev (cy_binds c)) && order_consistent (cy_evs c) r
+  end.
+
 Definition model_agrees (k : case) : bool :=
   match k_stream k with
   | O =>
       k_exact k && wf_paramsb (k_params k) && (0 <? snd (k_mult k))
       && replay (clamp (k_mult k)) (k_params k) (k_state0 k) [] (k_cycles k)
+      && order_consistent [] (k_cycles k)
   | _ => true
   end.
+
+(** observation flag 120 (hierarchical stream): the next allocate bound an evicted pod although the pod
+    it was evicted for was not bound before it (the simulation and the allocate action did not see the same
+    order).  Outside the class this is not a statement of a theorem; a lasso is what the monitor reports. *)
+Definition case_flags (k : case) : list nat :=
+  match k_stream k with
+  | 2%nat => if order_consistent [] (k_cycles k) then [] else [120%nat]
+  | _ => []
+  end.
+Definition run_flags (cs : list (nat * case)) : list (nat * list nat) :=
+  filter (fun p => negb (Nat.eqb (List.length (snd p)) 0)) (map (fun c => (fst c, case_flags (snd c))) cs).
 
 Definition run_mismatches (cs : list (nat * case)) : list nat := failing (fun k => negb (model_agrees k)) cs.
 Definition run_monitor (cs : list (nat * case)) : list nat := failing (fun k => negb (monitor_ok k)) cs.
